@@ -58,6 +58,7 @@ inductive Op where
   | frow (r : Nat)
   | fsetrow (r y : Nat)
   | fclearrow (r : Nat)
+  | fimport (clear : Bool) (vals : List Nat)   -- importRoaring of the given fragment positions
   | fsnap
   | fclose
   | freopen
@@ -217,6 +218,23 @@ def World.doClearRow (w : World) (f : Frag) (r : Nat) : World :=
   let f1 := { f with cache := cacheDel f.cache r }
   { w1.snapshot f1 with frag := some f1 }
 
+/-- `fragment.importRoaring` / `Bitmap.ImportRoaringBits`: per container of the payload the stored
+container is united with / reduced by it through the in-place kernels (`Thaw` first) or replaced by
+a clone of the payload container; the rows whose bits changed leave the row cache. -/
+def importOne (h : Heap) (st : Nat) (clear : Bool) (kv : Nat × List Nat) : Option Prim :=
+  let cur := match aget (h.bms st) kv.1 with | some c => h.vals c | none => []
+  let new := if clear then vdiff cur kv.2 else vunion cur kv.2
+  (if new = cur then none else some new).map (fun v => Prim.write st kv.1 v)
+
+def importPlan (h : Heap) (st : Nat) (clear : Bool) (vals : List Nat) : List Prim :=
+  (groupVals vals).filterMap (importOne h st clear)
+
+def World.doImport (w : World) (f : Frag) (clear : Bool) (vals : List Nat) : World :=
+  let plan := importPlan w.h f.storage clear vals
+  let rows := (plan.filterMap (fun p => match p with | .write _ k _ => some (k / perShard) | _ => none))
+  { w with h := w.h.applyPrims plan,
+           frag := some { f with cache := f.cache.filter (fun e => !rows.contains e.1) } }
+
 /-- Containers read by an operation: reading one whose region is unmapped kills the process. -/
 def World.reads (w : World) : Op → List Nat
   | .bnew _ | .rnew _ | .fopen _ | .fclose | .freopen => []
@@ -233,7 +251,7 @@ def World.reads (w : World) : Op → List Nat
       (match w.rows[a]?, w.rows[b]? with
        | some sa, some sb => (sa ++ sb).flatMap (fun s => (w.h.bms s.bm).map (·.2))
        | _, _ => [])
-  | .fset _ _ | .fclear _ _ | .frow _ | .fclearrow _ | .fsnap =>
+  | .fset _ _ | .fclear _ _ | .frow _ | .fclearrow _ | .fsnap | .fimport _ _ =>
       (match w.frag with | some f => if f.isOpen then (w.h.bms f.storage).map (·.2) else [] | none => [])
   | .fsetrow _ y =>
       (match w.frag, w.rows[y]? with
@@ -329,6 +347,10 @@ def World.step (w : World) (op : Op) : Option World :=
           if f.isOpen then
             some (w.doClearRow f r)
           else none
+      | none => none
+  | .fimport clear vals =>
+      match w.frag with
+      | some f => if f.isOpen then some (w.doImport f clear vals) else none
       | none => none
   | .fsnap =>
       match w.frag with
